@@ -998,6 +998,7 @@ def unique(ar, return_index=False, return_inverse=False, return_counts=False, ax
         res = ndarray._from_cells(cells, (len(groups), w), ar._dtype)
         n = len(rows)
     else:
+        in_shape = ar._shape
         if ar.ndim == 2:
             ar = ar.flatten()
         _check_sortable(ar)
@@ -1019,7 +1020,11 @@ def unique(ar, return_index=False, return_inverse=False, return_counts=False, ax
         for gi, g in enumerate(groups):
             for p in g:
                 inv[p] = gi
-        out += (ndarray._from_cells(inv, (n,), DT_INT),)
+        inv_arr = ndarray._from_cells(inv, (n,), DT_INT)
+        if axis is None and len(locals().get('in_shape', ())) == 2:
+            # NumPy 2: with axis=None the inverse has the SHAPE OF THE INPUT
+            inv_arr = inv_arr.reshape(locals()['in_shape'])
+        out += (inv_arr,)
     return out if len(out) > 1 else res
 
 
